@@ -198,7 +198,7 @@ func (s *gsim) byzCommit() {
 	what := ""
 	if k.Bool(1, 2, "byz-commit-boundary") && len(adv) > 0 {
 		// a clean message with a chosen number of supporters around the 2/3 boundary
-		need := 2*s.n/3 + 1
+		need := 2*len(n.curSet())/3 + 1 // relative to the set the target node is in
 		cnt := need - 1 + k.Choose(2, "byz-boundary-side")
 		if cnt > len(adv) {
 			cnt = len(adv)
